@@ -4,7 +4,38 @@ use crate::rng::Rng;
 pub use imp::run;
 
 pub const DRIVERS: &[&str] = &["rolling_apply", "rolling_apply_idx", "rolling2_apply", "rolling2_apply_idx", "rolling_custom", "rolling2_custom", "rolling_custom_iter"];
-pub const OUTC: &[&str] = &["vec", "deque", "nd"];
+pub const OUTC: &[&str] = &["vec", "deque", "nd", "nds"];
+
+/// the caller-buffer path: `no` = a fresh uninitialised container of type `$O`; `yes` = a *strided*
+/// uninitialised ndarray view (every second slot of a base array pre-filled with a sentinel): results
+/// must land in the view's slots, in order, and nowhere else
+macro_rules! out_path {
+    (no, $O:ty, $len:expr, $call_out:expr) => {{
+        let mut buf = <$O as Vec1<i64>>::uninit($len);
+        { let r = <$O as Vec1<i64>>::uninit_ref_mut(&mut buf); $call_out(r); }
+        let o: $O = unsafe { buf.assume_init() };
+        o.titer().collect::<Vec<i64>>()
+    }};
+    (yes, $O:ty, $len:expr, $call_out:expr) => {{
+        use std::mem::MaybeUninit;
+        const SENT: i64 = -7_777_777;
+        let mut base = Array1::<MaybeUninit<i64>>::from_elem(2 * $len, MaybeUninit::new(SENT));
+        { let r = base.slice_mut(crate::backends::s![..;2]); $call_out(r); }
+        let all: Vec<i64> = base.iter().map(|m| unsafe { m.assume_init() }).collect();
+        let mut v: Vec<i64> = vec![];
+        { let mut k = 0; while k < all.len() { v.push(all[k]); k += 2; } }
+        // a slot outside the view was written / a slot of the view was not: make the output differ
+        let mut clobbered = false;
+        let mut k = 1;
+        while k < all.len() { if all[k] != SENT { clobbered = true; } k += 2; }
+        let mut unwritten = false;
+        let mut j = 0;
+        while j < v.len() { if v[j] == SENT { unwritten = true; } j += 1; }
+        if clobbered { v.push(i64::MIN); }
+        if unwritten { v.push(i64::MIN + 1); }
+        v
+    }};
+}
 
 mod imp {
 use std::cell::RefCell;
@@ -61,7 +92,7 @@ macro_rules! c2_arm {
 
 /// run one driver on view `$view` (elements i64), output container `$O`, path ret/out
 macro_rules! drive {
-    ($c2:ident, $f:expr, $view:ident, $ys:ident, $w:expr, $path:expr, $O:ty, $len:expr) => {{
+    (@nds $nds:ident, $c2:ident, $f:expr, $view:ident, $ys:ident, $w:expr, $path:expr, $O:ty, $len:expr) => {{
         let log: RefCell<Vec<(String, String)>> = RefCell::new(vec![]);
         let slog: RefCell<Vec<String>> = RefCell::new(vec![]);
         let cnt: RefCell<i64> = RefCell::new(0);
@@ -74,10 +105,7 @@ macro_rules! drive {
                         let o: $O = $call_ret;
                         o.titer().collect::<Vec<i64>>()
                     } else {
-                        let mut buf = <$O as Vec1<i64>>::uninit($len);
-                        { let r = <$O as Vec1<i64>>::uninit_ref_mut(&mut buf); $call_out(r); }
-                        let o: $O = unsafe { buf.assume_init() };
-                        o.titer().collect::<Vec<i64>>()
+                        out_path!($nds, $O, $len, $call_out)
                     }
                 }};
             }
@@ -112,6 +140,9 @@ macro_rules! drive {
         let calls = if $f.contains("custom") { slog.borrow().clone() } else { mask_last(&mut log.borrow_mut(), w, $len) };
         format!("{};{}", show_list(&calls, |s| s.clone()), show_list(&out_vec, |x| x.to_string()))
     }};
+    ($c2:ident, $f:expr, $view:ident, $ys:ident, $w:expr, $path:expr, $O:ty, $len:expr) => {
+        drive!(@nds no, $c2, $f, $view, $ys, $w, $path, $O, $len)
+    };
 }
 
 pub fn run(r: &Req) -> Option<String> {
@@ -132,6 +163,7 @@ pub fn run(r: &Req) -> Option<String> {
             match r.s("oc") {
                 "deque" => drive!(yes, f, view, ys, w, path, VecDeque<i64>, n),
                 "nd" => drive!(yes, f, view, ys, w, path, Array1<i64>, n),
+                "nds" => drive!(@nds yes, yes, f, view, ys, w, path, Array1<i64>, n),
                 _ => drive!(yes, f, view, ys, w, path, Vec<i64>, n),
             }
         }));
@@ -140,6 +172,7 @@ pub fn run(r: &Req) -> Option<String> {
         match r.s("oc") {
             "deque" => drive!(no, f, view, ys, w, path, VecDeque<i64>, n),
             "nd" => drive!(no, f, view, ys, w, path, Array1<i64>, n),
+            "nds" => drive!(@nds yes, no, f, view, ys, w, path, Array1<i64>, n),
             _ => drive!(no, f, view, ys, w, path, Vec<i64>, n),
         }
     }))
@@ -163,6 +196,9 @@ pub fn generate(tier: &str, _rng: &mut Rng) -> (Vec<String>, bool) {
                     if *f == "rolling_custom_iter" && (p == "out" || *oc != "vec") {
                         continue; // lazy iterator: no output container involved
                     }
+                    if *oc == "nds" && (p == "ret" || *f == "rolling2_custom") {
+                        continue; // the strided view exists as a caller buffer only
+                    }
                     for n in 0..=maxn {
                         for w in 1..=n + 3 {
                             let sh = if p == "out" || matches!(*b, "vec" | "slice" | "arr" | "arc" | "nd" | "ndvm") || b.starts_with("ndv") { "to" } else { "iter" };
@@ -181,5 +217,5 @@ pub fn generate(tier: &str, _rng: &mut Rng) -> (Vec<String>, bool) {
 }
 
 pub fn rule(tier: &str) -> String {
-    format!("exhaustive: 7 driver entry points incl. the lazy rolling_custom_iter (+ their *_to forms through p=out) x 15 input backends (Vec, slice, [T;N], Arc<Vec>, VecDeque at head offsets 0/1/3, Arc<VecDeque>, Array1, ArrayViewMut1, ArrayView1 with step 1,2,3,-1,-2) x 3 output containers x {{returned, caller buffer}} x len 0..={} x window 1..=len+3, with a recording stateful callback (returns a running counter). non-trivial = len >= 2.", if tier == "thorough" { 12 } else { 8 })
+    format!("exhaustive: 7 driver entry points incl. the lazy rolling_custom_iter (+ their *_to forms through p=out) x 15 input backends (Vec, slice, [T;N], Arc<Vec>, VecDeque at head offsets 0/1/3, Arc<VecDeque>, Array1, ArrayViewMut1, ArrayView1 with step 1,2,3,-1,-2) x 3 output containers x {{returned, caller buffer}} + a strided ndarray view as caller buffer (results must land in its slots and nowhere else) x len 0..={} x window 1..=len+3, with a recording stateful callback (returns a running counter). non-trivial = len >= 2.", if tier == "thorough" { 12 } else { 8 })
 }
